@@ -141,6 +141,35 @@ def run_coqchk(prop, files=None):
     return ok, axioms, text[-1200:]
 
 
+# which generated parts the THEOREMS of a property are about
+PART_DEPS = {
+    "C01": {"models"}, "C05": {"models"}, "C11": {"models"}, "C12": {"models"}, "C13": {"models"}, "C17": {"models"},
+    "C18": {"opcodes"}, "C19": {"test_image"}, "C03": {"capacities"}, "C20": {"capacities"},
+}
+# the correspondence stream that covers a generated part exhaustively: (property module, tier)
+FALLBACK_VALIDATOR = {"models": ("C11", "thorough"), "opcodes": ("C18", "quick"), "test_image": ("C19", "quick"),
+                      "capacities": ("C20", "quick")}
+
+
+def run_fallback_validator(part, seed, info):
+    """exhaustive correspondence of one generated part with the current source. Returns (n_cases, failing cases)"""
+    vprop, vtier = FALLBACK_VALIDATOR[part]
+    vmod = importlib.import_module("props." + vprop.lower())
+    ok, out = vlib.coq_make(["Corr/%s.vo" % vprop])
+    if not ok:
+        return 0, [("build", out[-800:])]
+    vcases = vmod.gen(vlib.Rng(seed).fork(vprop), vtier, info)
+    vlib.run_cases_on_harness(vcases)
+    if hasattr(vmod, "wrap_impl"):
+        for c in vcases:
+            if c.impl is not None:
+                c.impl = vmod.wrap_impl(c, c.impl)
+    fails, errs = vlib.eval_shards(vprop + "-fallback", "Corr." + vprop, vcases, imports=getattr(vmod, "IMPORTS", ""),
+                                   per_shard=getattr(vmod, "PER_SHARD", 60), case_type=getattr(vmod, "CASE_TYPE", "(pcase * pout)"))
+    bad = [(vcases[i].line[:300], code) for i, code in sorted(fails.items()) if code != 0]
+    return len(vcases), bad
+
+
 def load_known():
     path = os.path.join(vlib.ROOT, "known_findings.txt")
     known = collections.defaultdict(dict)
@@ -205,16 +234,22 @@ def main():
     problems = []       # (kind, text) that break the tie / proof without a failing input
     # ---- 1. tie: translator
     vlib.sync_coq_work()
-    tr_ok, tr_msg, models, consts = vlib.translate()
+    tr_ok, tr_msg, models, consts, tr_failed = vlib.translate()
+    fallback_parts = []
     if not tr_ok:
-        problems.append(("translator", "tools/rs2v.py could not translate the current source: " + tr_msg))
-        # the tie is broken (theorems are NOT re-checked against this source). To still search for a failing input,
-        # the correspondence and the oracles are run with the committed baseline of the generated files
-        # (tools/gen_baseline = the translation of the pinned, repaired tree).
-        vlib.use_baseline_gen()
-        bl = vlib.baseline_models()
-        if bl is not None:
-            models, consts = bl
+        if models is None:
+            problems.append(("translator", "tools/rs2v.py could not translate the current source: " + tr_msg))
+        else:
+            # some part of the source no longer has the shape the translator understands; the committed baseline
+            # translation of that part is in Gen/ now. Only properties whose theorems are ABOUT that part are
+            # concerned (PART_DEPS); for them the tie is re-established — or a failing input found — by the
+            # exhaustive correspondence of that part with the current source (FALLBACK_VALIDATOR).
+            needed = sorted(set(tr_failed) & PART_DEPS.get(prop, set()))
+            fallback_parts = needed
+            if needed:
+                log("translator: part(s) %s of the source did not translate (%s); falling back to the baseline translation "
+                    "and to exhaustive correspondence for them" % (", ".join(needed), tr_msg[:300]))
+            tr_ok = True
     # ---- 2. proofs
     proof = check_proofs(prop, getattr(mod, "PROPS_FILES", None)) if tr_ok else dict(ok=False, obligations=0, discharged=0, theorems=[], detail="Gen/*.v not regenerated")
     if not proof["ok"]:
@@ -234,6 +269,21 @@ def main():
         problems.append(("harness-build", "the harness does not build against the current tree: " + h_out[-2500:]))
 
     info = dict(models=vlib.model_table(models), consts=consts, tier=tier, seed=seed, raw_models=models)
+    fallback_cov = {}
+    if fallback_parts and h_ok:
+        for part in fallback_parts:
+            try:
+                n_v, bad = run_fallback_validator(part, seed, info)
+            except Exception as e:
+                n_v, bad = 0, [("crash", repr(e))]
+            fallback_cov[part] = dict(validator=FALLBACK_VALIDATOR[part][0], cases=n_v, failing=len(bad), translator_error=tr_failed.get(part, "")[:300])
+            if bad:
+                problems.append(("translator", "part %s of the source did not translate (%s) and the exhaustive correspondence of that part "
+                                 "with the current source fails on %d of %d cases, e.g. %s" % (part, tr_failed.get(part, "")[:200], len(bad), n_v, bad[0][0])))
+            else:
+                log("translator fallback: part %s re-validated against the current source on %d cases (exhaustive correspondence): tie re-established" % (part, n_v))
+    elif fallback_parts:
+        problems.append(("translator", "parts %s did not translate and the harness does not build" % fallback_parts))
     cases = []
     failures, errors = {}, []
     extra_cov = {}
@@ -365,6 +415,10 @@ def main():
     cov.update(extra_cov or {})
     if chk_info:
         cov.update(chk_info)
+    if fallback_cov:
+        cov["translator_fallback"] = fallback_cov
+    if tr_failed and not fallback_parts:
+        cov["translator_parts_not_translated_but_unrelated_to_this_property"] = sorted(tr_failed)
     ev = dict(property_id=prop, tier=tier, seed=seed, level="proof", coverage=cov,
               assumptions=getattr(mod, "ASSUMPTIONS", []), wall_s=round(time.time() - t0, 2), violations=violations)
     vlib.write_json(os.path.join(vlib.ROOT, "evidence", prop + ".json"), ev)
